@@ -26,13 +26,14 @@ def parserNameOf (p : ParserInst) : Py String :=
 def headerUnparse (p : ParserInst) (fs : Compute.Fields) : Py Compute.Fields :=
   if p.cls == "CoAPParser" then coapUnparse p.coapMode fs else pure fs
 
-/-- the loop of `PacketParser.unparse`: each header parser, in stack order, takes from the fields not yet taken those
-    whose id contains its name and contributes what its own `unparse` returns; returns (output, fields nobody took) -/
+/-- the loop of `PacketParser.unparse`: the fields are in packet order; each header parser, in stack order, takes the
+    leading run of the fields not yet taken whose id contains its name, and contributes what its own `unparse`
+    returns; returns (output, fields nobody took) -/
 def unparseClaimed : Compute.Fields → List (ParserInst × String) → Py (Compute.Fields × Compute.Fields)
   | rem, [] => pure ([], rem)
   | rem, (p, n) :: rest => do
-    let mine ← headerUnparse p (rem.filter (fun f => strContains f.1 n))
-    let (more, rem') ← unparseClaimed (rem.filter (fun f => !strContains f.1 n)) rest
+    let mine ← headerUnparse p (rem.takeWhile (fun f => strContains f.1 n))
+    let (more, rem') ← unparseClaimed (rem.dropWhile (fun f => strContains f.1 n)) rest
     pure (mine ++ more, rem')
 
 /-- `PacketParser.unparse(decompressed_fields)`; fields no parser of the stack takes (the payload, headers reached
